@@ -177,11 +177,21 @@ def run(tier="quick", seed=0):
                     mc = FakeMC(64)
                     cur = MemoryIO(mc, 1, 2, BASE, BASE + L)
                     model = FileModel(bytearray(mc.mem), BASE, BASE + L)
+                    sliced_ok = True
                     for a, b in chain:
                         lo, hi, _ = slice(a, b).indices(model.hi - model.lo)
                         hi = max(lo, hi)
-                        cur = cur[a:b]
+                        try:
+                            cur = cur[a:b]
+                        except Exception as e:      # noqa  (slicing an open view never fails)
+                            if len(viol) < 8:
+                                viol.append({"id": "slice_exc_%d" % ev, "clause": "history", "why": "slicing [%r:%r] of a view of length %d raised %s: %s" % (
+                                    a, b, model.hi - model.lo, type(e).__name__, e), "inputs": {"length": L, "slices": [list(c) for c in chain]}})
+                            sliced_ok = False
+                            break
                         model = FileModel(model.buf, model.lo + lo, model.lo + hi)
+                    if not sliced_ok:
+                        continue
                     Lv = model.hi - model.lo
                     ev += 1
                     distinct.add(("seek_end", L, chain, k, then))
@@ -209,6 +219,16 @@ def run(tier="quick", seed=0):
                     before = len(mc.log)
                     with warnings.catch_warnings():
                         warnings.simplefilter("ignore")
+                        try:
+                            if then == "read":
+                                cur.read(0)
+                            elif then == "write":
+                                cur.write(b"")
+                        except Exception as e:      # noqa  (a transfer of nothing on an open view never fails)
+                            if len(viol) < 8:
+                                viol.append({"id": "then_exc_%d" % ev, "clause": "seek_from_end_then_transfer", "inputs": inputs,
+                                             "why": "%s of nothing after seek(%d, 2) raised %s: %s" % (then, k, type(e).__name__, e)})
+                            continue
                         if then == "read":
                             r = cur.read(1)
                             n = model.n(1)
